@@ -350,7 +350,9 @@ def cases(tier, seed, spec):
     yield {'kind': 'siblings', 'n': 0}
     yield {'kind': 'siblings', 'n': 1}
     yield from size_sweep(tier)
-    yield from gen.ctx_stream(tier, seed, scale=.35 if tier == 'quick' else .3, with_wide=True)
+    # (contexts of the harness' own user subclass cannot be unpickled in the fresh child interpreters)
+    yield from (c for c in gen.ctx_stream(tier, seed, scale=.35 if tier == 'quick' else .3, with_wide=True)
+                if not c.get('subclass'))
 
 
 def _json_roundtrip(concepts, ctx, work, rng, ignore_lattice, raw):
